@@ -312,12 +312,14 @@ static void run_tree(Tree *t) {
 	if (res != KSI_OK || !b) { vh_viol("treebuilder:new-fails", spec, "KSI_TreeBuilder_new(algo %d) = %d", t->algo, res); free(spec); return; }
 	b->maxTreeLevel = (short)t->maxlvl;
 	if (t->proc) {
-		pc.seed = t->seed; pc.calls = 0; proc.fn = proc_fn; proc.c = &pc; proc.levelOverhead = 1;
-		KSI_TreeBuilderLeafProcessorList_append(b->cbList, &proc);
+		/* t->proc processors in a row (the block signer sets up two: metadata and mask), each adding one sibling and one level */
+		static KSI_TreeBuilderLeafProcessor procs[4]; int k;
+		pc.seed = t->seed; pc.calls = 0; (void)proc;
+		for (k = 0; k < t->proc && k < 4; k++) { procs[k].fn = proc_fn; procs[k].c = &pc; procs[k].levelOverhead = 1; KSI_TreeBuilderLeafProcessorList_append(b->cbList, &procs[k]); }
 	}
 	lf_init(&lf);
 	for (i = 0; i < t->n && !aborted; i++) {
-		Leaf *l = &t->lv[i]; int ok_level = l->level >= 0 && l->level <= 255, eff = ok_level ? l->level + (t->proc ? 1 : 0) : 1000, ovf, cl, must_refuse;
+		Leaf *l = &t->lv[i]; int ok_level = l->level >= 0 && l->level <= 255, eff = ok_level ? l->level + t->proc : 1000, ovf, cl, must_refuse;
 		leaf_material(l, t->seed, i);
 		/* reference height rule */
 		ovf = !ok_level ? 1 : eff > 255 ? 1 : lf_carry_overflow(&lf, eff);           /* the level arithmetic leaves 0..255 (1 + slot of the join) */
@@ -435,7 +437,9 @@ static void run_tree(Tree *t) {
 			if (t->proc) {
 				/* link 0 comes from the processor: its sibling is the node the processor made; the parent is what entered the forest */
 				RN sub;
-				if (nl < 1 || lk[0].is_md || lk[0].corr != 0 || ref_fold(t->algo, &l->node, lk, 1, &sub) != 0) { VIOL(t, refused, "processor-link-missing", "leaf %d: first link is not the processor's sibling", i); forest_ok = 0; }
+				int k2, bad = nl < t->proc;
+				for (k2 = 0; !bad && k2 < t->proc; k2++) if (lk[k2].is_md || lk[k2].corr != 0) bad = 1;
+				if (bad || ref_fold(t->algo, &l->node, lk, t->proc, &sub) != 0) { VIOL(t, refused, "processor-link-missing", "leaf %d: the first %d link(s) are not the processors' siblings", i, t->proc); forest_ok = 0; }
 				else rf_add(&rf, t->algo, &sub);
 			}
 			KSI_AggregationHashChain_free(ch);
@@ -492,7 +496,7 @@ static void rnd_tree(Tree *t, Leaf *lv, int cap) {
 	t->algo = (int[]){1, 1, 4, 5, 0}[vh_below(5)];
 	switch (vh_below(5)) { case 0: case 1: t->maxlvl = 0; break; case 2: t->maxlvl = 1 + (int)vh_below(12); break; case 3: t->maxlvl = 250 + (int)vh_below(6); break; default: t->maxlvl = 13 + (int)vh_below(237); }
 	if (vh_below(40) == 0) t->maxlvl = -(int)vh_below(5);        /* "less or equal to 0 it is ignored" */
-	t->proc = vh_below(4) == 0;
+	t->proc = vh_below(4) == 0 ? 1 + (int)vh_below(3) : 0;      /* no processor, or 1..3 of them */
 	t->seed = vh_rand() >> 16;
 	t->lv = lv;
 	for (i = 0; i < t->n; i++) { lv[i].level = rnd_level(profile, i, t->n); lv[i].kind = mdp == 0 ? 0 : vh_below(mdp == 1 ? 10 : mdp == 2 ? 2 : 30) == 0; }
